@@ -189,22 +189,18 @@ pub mod q16 {
 pub mod q32 {
     use super::*;
     /// `op`: 0 `+= (a,b)`, 1 `-= (a,b)`, 2 `+= a`, 3 `-= a`; one op per harness instance (OP const)
-    /// LIMB < 8: slice by the limb of the 512-bit accumulator that receives the leading bit of the term (the 8 slices
-    /// plus the zero/NaR-operand cases of each cover every operand pair); LIMB >= 8: no restriction
-    pub fn step<const OP: u8, const LIMB: u32, S: Src>(s: &mut S) -> Outcome {
+    /// FB < 32: operands restricted to at most FB significant fraction bits each (every regime, exponent and sign, and
+    /// every 512-bit state: the carry chain, placement and sign handling are exercised in full, the multiplier is
+    /// small); FB >= 32: no restriction
+    pub fn step<const OP: u8, const FB: u32, S: Src>(s: &mut S) -> Outcome {
         let pre = draw512(s);
         let (a, b) = (s.u32(), s.u32());
-        if LIMB < 8 {
-            let be = if OP >= 2 { 0x4000_0000u32 } else { b };
-            if r::is_real(32, a) && r::is_real(32, be) {
-                let (_, ea, ma) = r::dec(32, 2, a);
-                let (_, eb, mb) = r::dec(32, 2, be);
-                let carry = (((ma as u64) * (mb as u64)) >> 63) as i32;
-                let first_pos = 271 - (ea + eb + carry);
-                crate::assume!(s, first_pos >= 0 && (first_pos as u32) / 64 == LIMB);
-            } else {
-                // zero / NaR operands belong to the first slice of the operation
-                crate::assume!(s, LIMB == if OP >= 2 { 2 } else { 0 });
+        if FB < 32 {
+            if r::is_real(32, a) {
+                crate::assume!(s, r::dec(32, 2, a).2 << 1 << FB == 0);
+            }
+            if OP < 2 && r::is_real(32, b) {
+                crate::assume!(s, r::dec(32, 2, b).2 << 1 << FB == 0);
             }
         }
         let mut q = Q32E2::from_bits(pre);
